@@ -190,11 +190,22 @@ theorem pixel_eq_portable (p : Nat) (row : List Int) (start : Nat) (ks : List In
   have h0 : ([0, 0] : List Int) = [wrap64 0, wrap64 0] := by decide
   rw [h0]
   obtain ⟨e0, e1, hrun, hs⟩ := loop_ok row ks.length ks (le_refl _) start 0 0
+  beta_reduce at hrun
   rw [hrun]
   simp only [List.getD_cons_succ, List.getD_cons_zero, zero_add]
   unfold clip16
-  rw [w64_add_left, w64_add_right, w64_add_left, w64_add_right]
-  congr 2
-  rw [← hs]; ring
+  apply congrArg (fun v => ((clip32 v p : Nat) : Int))
+  apply wrapInt_congr
+  have h1 : wrap64 e0 % 2 ^ 64 = e0 % 2 ^ 64 := wrapInt_emod 64 e0
+  have h2 : wrap64 e1 % 2 ^ 64 = e1 % 2 ^ 64 := wrapInt_emod 64 e1
+  have h3 : wrap64 (2 ^ (p - 1)) % 2 ^ 64 = 2 ^ (p - 1) % 2 ^ 64 := wrapInt_emod 64 (2 ^ (p - 1))
+  have h4 : wrap64 (wrap64 e0 + wrap64 e1) % 2 ^ 64 = (wrap64 e0 + wrap64 e1) % 2 ^ 64 := wrapInt_emod 64 (wrap64 e0 + wrap64 e1)
+  rw [← hs]
+  generalize (2 : Int) ^ (p - 1) = c at *
+  generalize wrap64 (wrap64 e0 + wrap64 e1) = s01 at *
+  generalize wrap64 e0 = w0 at *
+  generalize wrap64 e1 = w1 at *
+  generalize wrap64 c = wc at *
+  omega
 
 end Fir.Proofs.U16x1
